@@ -120,6 +120,13 @@ func (m *model) live(svc string) map[string]bool {
 		}
 		return out
 	}
+	if svc == "PI" {
+		// the same-named service of the child package: bp serves both
+		if m.conns["bp"] {
+			out["bp"] = true
+		}
+		return out
+	}
 	if svc == "AX" {
 		// the method only revision 2 of service A has: served by b4 alone
 		if m.conns["b4"] {
@@ -140,7 +147,7 @@ func (m *model) live(svc string) map[string]bool {
 
 func (m *model) sig() string {
 	var parts []string
-	for _, s := range []string{"A", "B", "C", "D1", "D2", "T"} {
+	for _, s := range []string{"A", "B", "C", "D1", "D2", "T", "P", "PI"} {
 		var t []string
 		for k := range m.live(s) {
 			t = append(t, k)
@@ -195,6 +202,7 @@ var methods = []struct{ full, svc string }{
 	{"/vf.rs.D1/Get", "D1"}, {"/vf.rs.D2/Get", "D2"},
 	{"/vf.rs.A/Extra", "AX"},
 	{"/vf.rs.T/Get", "T"},
+	{"/vf.rs.P/Get", "P"}, {"/vf.rs.inner.P/Get", "PI"},
 }
 
 // httpSpecs lists the HTTP requests that are requests for a method, at least
@@ -237,6 +245,14 @@ var httpSpecs = map[string][]reqSpec{
 		{Verb: "GET", Path: "/sv/k1/st", Binding: "shared-var"},
 		{Verb: "GET", Path: "/sv/sh/x/pt", Binding: "shared-var"},
 		{Verb: "GET", Path: "/any/things/k6/t", Binding: "below-any-verb"},
+	},
+	"/vf.rs.P/Get": {
+		{Verb: "GET", Path: "/rs/p/k1", Binding: "var"},
+		{Verb: "POST", Path: "/vf.rs.P/Get", Body: `{"a":"k2"}`, Binding: "implicit"},
+	},
+	"/vf.rs.inner.P/Get": {
+		{Verb: "GET", Path: "/rs/pi/k1", Binding: "var"},
+		{Verb: "POST", Path: "/vf.rs.inner.P/Get", Body: `{"a":"k2"}`, Binding: "implicit"},
 	},
 	"/vf.rs.A/Extra": {
 		{Verb: "GET", Path: "/rs/extra/k1", Binding: "var", Want: []string{"a=k1"}},
